@@ -34,7 +34,7 @@ try:
             continue
         fired = []
         for prop in sorted(props.PROPS):
-            rc, out = st.run_check(prop, root)
+            rc, out = st.run_check(prop, root, 'thorough')     # both worlds: a rule must be silent on optimised MIR too
             if rc != 0:
                 first = [l for l in out.splitlines() if l.startswith('  violation:') or l.startswith('CHECK-BROKEN')]
                 fired.append((prop, rc, first[0][:200] if first else ''))
